@@ -126,3 +126,4 @@ def worker_threads_rule(ctx):
     shared.scheduler_drain_rules(ctx)
     ctx.import_rules("C02", r"^atomic-option/")
     ctx.import_rules("C13", r"^fwd/join-set-panic-data|^pooled-stack-only-for-default-size|^own-stack-for-other-sizes")
+    shared.worker_run_budget_rules(ctx)
